@@ -139,6 +139,40 @@ impl<'a> Machine<'a> {
             }
             syn::Pat::Paren(p) => self.pat_matches(&p.pat, v),
             syn::Pat::Type(t) => self.pat_matches(&t.pat, v),
+            syn::Pat::Slice(sl) => {
+                let V::List(items) = v else { return Ok(false) };
+                let rest_at = sl.elems.iter().position(|e| matches!(e, syn::Pat::Rest(_)));
+                match rest_at {
+                    None => {
+                        if items.len() != sl.elems.len() {
+                            return Ok(false);
+                        }
+                        for (pp, vv) in sl.elems.iter().zip(items) {
+                            if !self.pat_matches(pp, vv)? {
+                                return Ok(false);
+                            }
+                        }
+                        Ok(true)
+                    }
+                    Some(r) => {
+                        let after = sl.elems.len() - r - 1;
+                        if items.len() < r + after {
+                            return Ok(false);
+                        }
+                        for (pp, vv) in sl.elems.iter().take(r).zip(items) {
+                            if !self.pat_matches(pp, vv)? {
+                                return Ok(false);
+                            }
+                        }
+                        for (pp, vv) in sl.elems.iter().skip(r + 1).zip(&items[items.len() - after..]) {
+                            if !self.pat_matches(pp, vv)? {
+                                return Ok(false);
+                            }
+                        }
+                        Ok(true)
+                    }
+                }
+            }
             syn::Pat::Reference(r) => self.pat_matches(&r.pat, v),
             syn::Pat::Path(p) => {
                 let name = sm::tsc(&p.path);
